@@ -10,6 +10,16 @@ NOT_APPLICABLE = {
 for _p in ["C%02d" % i for i in range(1, 21)]:
     NOT_APPLICABLE.setdefault(_p, PENDING)
 CLAIMED = {
+    "C14": {
+        "text": "Decides the structure of agile encryption for all passwords and package sizes: the symbolic normal form of encrypt() (every callee opaque, random sources distinguished by call site) unifies with the MS-OFFCRYPTO dataflow template for all 17 EncryptionInfo attributes — same-source parameters, operand order of every crypt/KDF/IV call, the five block keys, HMAC over the very buffer that is stored, five pairwise distinct fresh random values with the RNG result consumed; hash-chain operand order at the three KDF sites, IV shape and 0x36 padding, segment size 4096, little-endian segment counter from 0 by 1, 8-byte length prefix of the same input. Does not decide digest or cipher values (interoperability).",
+        "note": NOTE,
+        "technique": "symbolic normal form (MIR) unified with a dataflow template from the standard; operand-order dataflow at hash sites; constant tables",
+    },
+    "C15": {
+        "text": "Decides the structure of the protection-password hashing for all passwords and the three protection kinds: the password reaches the object only through the hash; each entry point assigns exactly the four fields of one family and unconditionally clears that family's raw password, families pairwise distinct (derived from the fields the setters write); stored salt/spin/algorithm/hash are the very values used/produced, salt from its own random call; chain shape H(salt||UTF-16LE(pw)), then H(prev||LE32(i)) in the spin loop. Does not decide the hash value.",
+        "note": NOTE,
+        "technique": "symbolic normal form (MIR) with setter summaries by written field; sibling cross-check; operand-order dataflow at hash sites",
+    },
     "C20": {
         "text": "Decides structural necessary conditions of the CSV rendering for all sheets and option combinations: the loop nest is exactly [1,highest row] x [1,highest column] of the active sheet (affine index summary, bounds paired with the right extent component, (column,row) lookup order, rows outermost); ',' joiner and one CR LF per record; trim/wrap guarded by their own options, str::trim on both sides, trim before wrap, wrap character on both sides; wrap character doubled before wrapping; every CsvEncodeValues variant dispatches to the encoding_rs static of the same encoding (table from the WHATWG names). The unquoted-delimiter case is a listed finding. Does not decide the parser round trip.",
         "note": NOTE,
